@@ -1,6 +1,7 @@
 package main
 
 import (
+	"regexp"
 	"strings"
 
 	"verif/harness/core"
@@ -14,6 +15,8 @@ func exclusions() g7lib.Cfg08 {
 		NoRangeDesc:    true, // range-frame-descending-order-key
 	}
 }
+
+var ntileRe = regexp.MustCompile(`NTILE\((\d+)\) (OVER \([^)]*\))`)
 
 // every reports whether all disagreements are cell disagreements explained by f.
 func every(q *g7lib.Query08, bad []g7lib.Bad08, f func(label string, exp g7lib.Cell, raw any) bool) bool {
@@ -50,6 +53,16 @@ func classify(q *g7lib.Query08, bad []g7lib.Bad08, w *witness) string {
 		return g7lib.GroupConcatWithoutEmpty(exp, raw)
 	}) {
 		return "group-concat-skips-empty-string"
+	}
+	// ntile-same-window-different-n: two NTILE calls over the same OVER clause with different n
+	if every(q, bad, func(l string, exp g7lib.Cell, raw any) bool { return strings.HasPrefix(l, "NTILE") }) {
+		over := map[string]string{}
+		for _, m := range ntileRe.FindAllStringSubmatch(q.SQL, -1) {
+			if n, ok := over[m[2]]; ok && n != m[1] {
+				return "ntile-same-window-different-n-shares-result"
+			}
+			over[m[2]] = m[1]
+		}
 	}
 	// the signature names the functions whose cells disagree
 	fns := map[string]bool{}
@@ -104,6 +117,8 @@ func pins() []pin {
 			"SELECT JSON_ARRAYAGG(v) AS c0 FROM w WHERE id < 0", 0, " => NULL"),
 		mk("group-concat-skips-empty-string", "GROUP_CONCAT skips empty strings as if they were NULL",
 			"SELECT GROUP_CONCAT(s ORDER BY id) AS c0 FROM w", 0, " => 'a,,b,'"),
+		mk("ntile-same-window-different-n-shares-result", "two NTILE(n) calls with different n over the same window: the second returns the values of the first",
+			"SELECT id AS g0, NTILE(4) OVER (ORDER BY id) AS c0, NTILE(2) OVER (ORDER BY id) AS c1 FROM w", 1, "1 => 1 | 1", "2 => 1 | 1", "3 => 2 | 1", "4 => 3 | 2", "5 => 4 | 2"),
 		mk("panic:min-max-over-inverted-rows-frame:slice-bounds", "MIN / MAX over a ROWS frame that ends before it starts panics (slice bounds out of range) instead of returning NULL (F23)",
 			"SELECT id AS g0, MIN(v) OVER (ORDER BY id ROWS BETWEEN 2 PRECEDING AND 3 PRECEDING) AS c0 FROM w", 1, "1 => NULL", "2 => NULL", "3 => NULL", "4 => NULL", "5 => NULL"),
 	}
